@@ -486,10 +486,14 @@ pub fn gen(prop: &str, r: &mut Rng, _filter: &str) -> Vec<String> {
                 // names beyond offset 16383, mixed-case duplicates
                 let mut q: Vec<u8> = vec![0, 7, 0x80, 0, 0, 1, 0, 0, 0, 0, 0, 0, 1, b'q', 0, 0, 1, 0, 1];
                 let mut n = 0u16;
-                let fam = r.below(4);
+                let fam = r.below(5);
                 let depth = 18 + r.below(8) as usize;
                 let mut rec = |q: &mut Vec<u8>, name: &[u8]| { q.extend_from_slice(name); q.extend_from_slice(&[0, 1, 0, 1, 0, 0, 0, 1, 0, 4, 1, 2, 3, 4]); };
                 match fam {
+                    4 => { // nested suffixes that lie beyond the first KiB / 4 KiB of the output (one big opaque record first)
+                        let big = *r.pick(&[1100usize, 4200]);
+                        q.extend_from_slice(&[1, b'z', 0, 0, 99, 0, 1, 0, 0, 0, 1, (big >> 8) as u8, big as u8]); q.extend(std::iter::repeat(0u8).take(big)); n += 1;
+                        for d in 1..=depth { let mut name = vec![]; for k in (1..=d).rev() { name.push(2); name.push(b'a' + (k % 26) as u8); name.push(b'0' + (k / 26) as u8); } name.push(0); rec(&mut q, &name); n += 1; } }
                     0 => { // l1 ; l2.l1 ; l3.l2.l1 ; ...
                         for d in 1..=depth { let mut name = vec![]; for k in (1..=d).rev() { name.push(2); name.push(b'a' + (k % 26) as u8); name.push(b'0' + (k / 26) as u8); } name.push(0); rec(&mut q, &name); n += 1; } }
                     1 => { // many distinct suffixes, then repeats (mixed case)
